@@ -93,6 +93,23 @@ struct Ranged {
     #[schemars(length(equal = 3))]
     exactly: String,
 }
+/// limits and bounds that are exactly zero, or negative
+#[derive(Deserialize, Serialize, JsonSchema)]
+struct Zeros {
+    #[schemars(length(max = 0))]
+    empty: String,
+    #[schemars(length(equal = 0))]
+    none: Vec<u8>,
+    #[schemars(range(min = 0, max = 0))]
+    zero: i32,
+    #[schemars(range(min = -10, max = -1))]
+    negative: i64,
+    #[schemars(range(max = 0))]
+    nonpositive: i16,
+    #[schemars(length(min = 0, max = 1))]
+    at_most_one: Vec<String>,
+    nothing: [u8; 0],
+}
 /// Title and description come from the doc comment.
 ///
 /// Second paragraph.
@@ -344,6 +361,9 @@ fn main() {
     t!(Strict);
     t!(Ranged);
     t!(Annotated);
+    t!(Zeros);
+    t!([u8; 0]);
+    t!([String; 1]);
     t!(UnitEnum);
     t!(DocEnum);
     t!(External);
